@@ -43,16 +43,16 @@ ClkMatches(k, logged) ==
 StateMatches(e) ==
   /\ commits' = commits \o e.new
   /\ ref'[e.r] = AsVec(e.ref)
-  /\ trk'[e.r] = AsVec(e.trk)
-  /\ hub' = AsVec(e.hub)
+  /\ \A m \in Remote : trk'[e.r][m] = AsVec(e.trk[m])
+  /\ \A m \in Remote : hub'[m] = AsVec(e.hub[m])
   /\ ClkMatches(clk'[e.r], e.clk)
 
 Reset ==
   /\ IsEv("Reset")
   /\ commits' = <<>> /\ nops' = 0
   /\ ref' = [r \in Replica |-> [b \in Bugs |-> 0]]
-  /\ trk' = [r \in Replica |-> [b \in Bugs |-> 0]]
-  /\ hub' = [b \in Bugs |-> 0]
+  /\ trk' = [r \in Replica |-> [m \in Remote |-> [b \in Bugs |-> 0]]]
+  /\ hub' = [m \in Remote |-> [b \in Bugs |-> 0]]
   /\ clk' = [r \in Replica |-> [e |-> 1, c |-> 1, de |-> 1, dc |-> 1]]
   /\ res' = NoRes
   /\ digests' = <<>> /\ pend' = {}
@@ -73,15 +73,18 @@ TRead ==
           ELSE digests' = Append(digests, [ops |-> ev.returned, snap |-> ev.snap])
      ELSE UNCHANGED digests
 
-TPush  == pend = {} /\ UNCHANGED pend /\ IsEv("Push") /\ Push(ev.r) /\ res'.ok = ev.ok /\ StateMatches(ev) /\ UNCHANGED digests
-TFetch == pend = {} /\ UNCHANGED pend /\ IsEv("Fetch") /\ ev.err = "" /\ Fetch(ev.r) /\ StateMatches(ev) /\ UNCHANGED digests
+TPush  == pend = {} /\ UNCHANGED pend /\ IsEv("Push") /\ ev.m \in Remote /\ Push(ev.r, ev.m) /\ res'.ok = ev.ok /\ StateMatches(ev) /\ UNCHANGED digests
+TFetch == pend = {} /\ UNCHANGED pend /\ IsEv("Fetch") /\ ev.err = "" /\ ev.m \in Remote /\ Fetch(ev.r, ev.m) /\ StateMatches(ev) /\ UNCHANGED digests
+
+TFetchRefused == pend = {} /\ UNCHANGED pend /\ IsEv("Fetch") /\ ev.err # "" /\ ev.empty /\ ev.m \in Remote /\ FetchRefused(ev.r, ev.m) /\ StateMatches(ev) /\ UNCHANGED digests
 
 (* Merge events of one MergeAll are logged with the state after the whole MergeAll: refs of other bugs may still
    change, so only this bug's refs are bound here (and everything on the final event). *)
 (* MergeAll reports on every remote-tracking bug: one Merge event each, between MergeAllBegin and MergeAllEnd *)
 TMergeBegin ==
   /\ IsEv("MergeAllBegin") /\ pend = {}
-  /\ pend' = {b \in Bugs : trk[ev.r][b] # 0}
+  /\ ev.m \in Remote
+  /\ pend' = {b \in Bugs : trk[ev.r][ev.m][b] # 0}
   /\ UNCHANGED <<commits, nops, ref, trk, hub, clk, res, digests>>
 TMergeEnd ==
   /\ IsEv("MergeAllEnd") /\ pend = {}
@@ -90,24 +93,25 @@ TMergeEnd ==
 TMerge ==
   /\ IsEv("Merge")
   /\ ev.b \in pend /\ pend' = pend \ {ev.b}
-  /\ \E au \in Author : Merge(ev.r, ev.b, au, RkOf(ev))
+  /\ ev.m \in Remote
+  /\ \E au \in Author : Merge(ev.r, ev.m, ev.b, au, RkOf(ev))
   /\ BindMerge => (res'.status = ev.status /\ res'.ops = ev.returned)
   /\ commits' = commits \o ev.new
   /\ ref'[ev.r][ev.b] = ev.ref[ev.b]
-  /\ trk'[ev.r][ev.b] = ev.trk[ev.b]
+  /\ trk'[ev.r][ev.m][ev.b] = ev.trk[ev.m][ev.b]
   /\ ev.final => StateMatches(ev)
   /\ UNCHANGED digests
 
 TMergeNone ==
   /\ IsEv("MergeNone") /\ UNCHANGED pend
-  /\ \A b \in Bugs : trk[ev.r][b] = 0
+  /\ \A b \in Bugs : trk[ev.r][ev.m][b] = 0
   /\ UNCHANGED <<commits, nops, ref, trk, hub, clk, digests>>
   /\ res' = NoRes
 
 TReopen == pend = {} /\ UNCHANGED pend /\ IsEv("Reopen") /\ ev.err = "" /\ Reopen(ev.r, ev.loaders) /\ StateMatches(ev) /\ UNCHANGED digests
 TDeleteClocks == pend = {} /\ UNCHANGED pend /\ IsEv("DeleteClocks") /\ DeleteClocks(ev.r, ev.b) /\ StateMatches(ev) /\ UNCHANGED digests
 
-TraceNext == TMergeBegin \/ TMergeEnd \/ Reset \/ TNewBug \/ TEdit \/ TRead \/ TPush \/ TFetch \/ TMerge \/ TMergeNone \/ TReopen \/ TDeleteClocks
+TraceNext == TFetchRefused \/ TMergeBegin \/ TMergeEnd \/ Reset \/ TNewBug \/ TEdit \/ TRead \/ TPush \/ TFetch \/ TMerge \/ TMergeNone \/ TReopen \/ TDeleteClocks
 
 TraceSpec == TraceInit /\ [][TraceNext]_tvars
 
